@@ -38,7 +38,23 @@ impl Instance {
         }
     }
     /// run operation #k and describe everything the caller can observe of it
+    /// a panic inside the operation (C14's subject, or an exhausted timer budget) becomes part
+    /// of the trace instead of killing the thread that runs it: a scenario never hangs on it, and
+    /// solo and interleaved runs stay comparable
     pub fn step(&self, g: &mut dyn Gen, k: usize) -> String {
+        match std::panic::catch_unwind(std::panic::AssertUnwindSafe(|| self.step_inner(g, k))) {
+            Ok(v) => v,
+            Err(p) => {
+                let rec = crate::engine::take_last_panic().unwrap_or_default();
+                if p.downcast_ref::<crate::timer::TimerBudget>().is_some() {
+                    "<timer budget exhausted>".to_string()
+                } else {
+                    format!("<panic: {}>", crate::engine::panic_signature(&rec))
+                }
+            }
+        }
+    }
+    fn step_inner(&self, g: &mut dyn Gen, k: usize) -> String {
         if self.jops.is_empty() {
             return apply(g, &self.ops[k]).map(|v| fmt_val(&v)).unwrap_or_default();
         }
